@@ -304,6 +304,16 @@ func (s *Syncer) walkFetch(ctx context.Context, rootCid cid.Cid, sel selector.Se
 }
 
 func (s *Syncer) fetch(ctx context.Context, rsrc string, cb func(io.Reader) error) error {
+	// triedNoPath is set when this call falls back to the legacy URL form
+	// without the IPNI path. The fallback is kept for later requests only if
+	// the server answered it; otherwise the IPNI path is restored.
+	var triedNoPath, noPathOK bool
+	defer func() {
+		if triedNoPath && !noPathOK {
+			s.rootURL = *s.rootURL.JoinPath(IPNIPath)
+			s.noPath = false
+		}
+	}()
 nextURL:
 	fetchURL := s.rootURL.JoinPath(rsrc)
 	var doneRetry bool
@@ -342,6 +352,7 @@ retry:
 
 	switch resp.StatusCode {
 	case http.StatusOK:
+		noPathOK = true
 		return cb(resp.Body)
 	case http.StatusNotFound:
 		_, _ = io.Copy(io.Discard, resp.Body)
@@ -350,6 +361,7 @@ retry:
 			log.Warnw("Plain HTTP got not found response, retrying without IPNI path for legacy HTTP")
 			s.rootURL.Path = strings.TrimSuffix(s.rootURL.Path, strings.Trim(IPNIPath, "/"))
 			s.noPath = true
+			triedNoPath = true
 			goto nextURL
 		}
 		log.Errorw("Block not found from HTTP publisher", "resource", rsrc)
@@ -364,6 +376,7 @@ retry:
 			log.Warnw("Plain HTTP got forbidden response, retrying without IPNI path for legacy HTTP")
 			s.rootURL.Path = strings.TrimSuffix(s.rootURL.Path, strings.Trim(IPNIPath, "/"))
 			s.noPath = true
+			triedNoPath = true
 			goto nextURL
 		}
 		fallthrough
